@@ -366,6 +366,30 @@ def monitor(ctx, extended=False):
                     ctx.violation(f'{fn_}: after the caller wrecked the result of the first call, the same call returns {str(r2)[:160]}; a fresh interpreter returns {str(want)[:160]}',
                                   {'function': fn_, 'args': [str(a) for a in args_], 'kwargs': kw_}, key='returned-object-aliased')
                 events.add((fn_, 'wrecked-result'))
+        # objects: a pipeline's heads depend on its sections and slurry parameters, not on what the caller does to containers a slurry object returned
+        # earlier (its grading dict, its velocity list, its tabulated curves)
+        from DHLLDV.PipeObj import Pipe, Pipeline
+        for _ in range(ctx.n(4, 60)):
+            pp = E.slurry_params(ctx.rng)
+            try:
+                sl = E.make_slurry(pp, max_index=20)
+                d_other = ctx.rng.choice([x for x in (0.4, 0.5, 0.6, 0.762, 0.9) if x != pp['Dp']])
+                pl = Pipeline(pipe_list=[Pipe('a', pp['Dp'], 0.0, 0.5, -4.0), Pipe('b', d_other, 300.0, 0.5, 1.0), Pipe('c', pp['Dp'], 500.0, 1.0, 2.0)], slurry=sl)
+                Qs = [0.25 * 3.14159 * pp['Dp'] ** 2 * v for v in (2.0, 4.0)]
+                ctx.count('evaluations')
+                h1 = [pl.calc_system_head(Q) for Q in Qs]
+                g1 = pl.hydraulic_gradient(Qs[0])
+                got = [sl.GSD, sl.vls_list, sl.Erhg_curves, sl.im_curves]
+                for c_ in got:
+                    wreck(c_)
+                h2 = [pl.calc_system_head(Q) for Q in Qs]
+                g2 = pl.hydraulic_gradient(Qs[0])
+                if not (same(h1, h2) and same(g1, g2)):
+                    ctx.violation(f'after the caller wrecked the grading dict / velocity list / curve tables the slurry object had returned, the pipeline reports {str(h2)[:120]} instead of {str(h1)[:120]}',
+                                  {'slurry': pp, 'diameters': [pp['Dp'], d_other]}, key='returned-object-aliased')
+                events.add(('pipeline', 'wrecked-slurry-containers'))
+            except Exception as e:   # noqa
+                ctx.violation(f'pipeline / slurry object stratum raised {type(e).__name__}: {e}', {'slurry': pp}, key='returned-object-aliased')
         # a function may not edit the containers it is given: the same call repeated with the caller's own list / dict gives the same answer
         import copy as _copy
         import unit_conv as UC
